@@ -14,6 +14,21 @@
     // C40 "after a failed run no cleanup happens" is the call-site obligation
     // `processed_ok()` of Run::cleanup below: cleanup is reachable only after
     // process() returned Ok on the same run. No postcondition of its own.
+//@ fn RunFailed::fatal
+//@ spec
+    ensures res.fatal,
+//@ fn RunFailed::retry
+//@ spec
+    ensures !res.fatal,
+//@ fn RunFailed::is_fatal
+//@ spec
+    ensures res == self.fatal,
+//@ fn RunFailed::should_retry
+//@ spec
+    ensures res == !self.fatal,
+//@ fn Engine::disable_collector
+//@ spec
+    ensures final(self).collector is None, final(self).dirty_repository == old(self).dirty_repository,
 //@ global
 impl<'a, P> Run<'a, P> {
     // The store run and the collector run belong to the engine `validation`.
